@@ -79,6 +79,34 @@ CHECKS.append({
             "(both pivots use the row count).",
 })
 
+CHECKS.append({
+    "property_id": "C07",
+    "design_ref": "DESIGN.md 5 (C07)",
+    "technique": "Coq proof (equalities over R) about per-loss models regenerated from pysersic/loss.py by symbolic execution of sample/factor/mask/dist "
+                 "calls + interval-arithmetic correspondence with per-pixel log-probabilities of the real losses from numpyro traces",
+    "text": "Thirteen theorems (Props/C07.v) equate each regenerated per-pixel log term with the documented likelihood for ALL data/rms/model/nuisance "
+            "values: Gaussian; (1+f) and quadrature variants with their nuisance priors and supports; Cash; pseudo-Huber with delta^2, delta=3; "
+            "Student-t(5) at the model with positive constant scale factor (symmetry, standardised form, tail exponent); three mixtures with outlier "
+            "width 5x and fraction b/20 in [0,1/4].  Each run re-extracts the models and certifies inside Coq (interval) that they reproduce the "
+            "log-probabilities numpyro computes for the real functions.",
+    "note": "Trusted: Coq kernel, Interval, Reals axioms; translator unit Losses; Base/Dist.v density formulas (exercised numerically by the "
+            "correspondence); truncated-normal normalisers not modelled (parameters/bounds compared); float32 evaluation compared at 1e-4+1e-5 rel.",
+})
+CHECKS.append({
+    "property_id": "C06",
+    "design_ref": "DESIGN.md 5 (C06)",
+    "technique": "Coq proof: soundness theorem of a syntactic mask-safety analysis over a deep model of numpyro's masked observed sites, instantiated on "
+                 "the ten regenerated loss models (all images, all masks), zero-gradient corollary via Coquelicot; correspondence on traces of the real losses",
+    "text": "Seven theorems (Props/C06.v): for every loss, any two image triples agreeing on the good pixels have the same log-density (for all masks, "
+            "pixel sets, latent values); the value at a masked pixel is irrelevant and the derivative w.r.t. data, rms and model there is identically 0; "
+            "polarity (good = not marked; all good when absent; the fitter hands that array to the loss); no mask => every pixel contributes; unmasked "
+            "Gaussian pixels are sensitive.  The criterion is re-evaluated on loss models re-extracted each run (a reduction like jnp.mean(rms) over all "
+            "pixels, or an unmasked site, makes it false), and the masked flag / exact zeros are checked against numpyro traces.",
+    "note": "Trusted: Coq kernel, Coquelicot, Reals axioms; translator units Losses/InputChecks/BuildModel; the model of handlers.mask (log-prob "
+            "counted only where good) tied by exact zeros in traces; the non-zero-gradient clause on unmasked pixels is proved for the Gaussian family "
+            "only and otherwise checked on the implementation; multi-band data flow is under C15.",
+})
+
 _PENDING = "check not built yet in this session (build order in DESIGN.md section 9); will be claimed once its Coq model, theorems and tie exist"
 NOT_APPLICABLE = [
     {"property_id": "C%02d" % i, "reason": _PENDING}
